@@ -2,9 +2,13 @@
    Proved: the cursor machine over ANY view without empty branches -- in particular views that contain
    leaves emptied by deletes of the same transaction -- yields every entry exactly once in view order, and
    the pinned (pre-repair) machine did not (it stopped at an emptied leaf).
-   Not proved: that the overlay (transaction-local nodes shadowing mapped pages) presents the view the
-   reference predicts after each mutation; that is compared against the extracted reference after every
-   single operation on every run (level: translation validation for that half). *)
+   Proved for POINT LOOKUPS through the overlay (engine model, coq/model/Engine.v, compared page for page with the
+   library): after a put / delete on a well-formed bucket, the same transaction's lookups answer what the
+   reference map answers after that operation -- for every key, every tree shape, every mix of materialised
+   nodes and mapped pages (C07_read_own_put / C07_read_own_delete).
+   Not proved: the same for cursors over the overlay (scans / seeks inside a write transaction) and after
+   rebalance; that is compared against the extracted reference after every single operation on every run
+   (level: translation validation for that half). *)
 From Coq Require Import List NArith.
 From Jamm Require Import Bytes Codec Tree Spec Cursor CursorFacts.
 Import ListNotations.
@@ -21,3 +25,27 @@ Theorem C07_legacy_refuted :
   scan skip_tree = CVal [IKv [Byte.x02] [Byte.x2a]].
 Proof. exact next_legacy_skips_refuted. Qed.
 Print Assumptions C07_legacy_refuted.
+
+(* ---- the overlay: transaction-local nodes shadowing mapped pages ---- *)
+From Jamm Require Engine EngineFacts EngineModifyFacts EngineTop.
+Theorem C07_read_own_put : forall d b l k v s b' s',
+  EngineModifyFacts.bucket_wf d b -> EngineModifyFacts.bucket_view d b l ->
+  Engine.b_put d b k v s = Engine.Ok (b', s') ->
+  forall k', Engine.b_lookup d b' k' =
+             Engine.Ok (if beq k' k then Some (Engine.LKv k v) else Spec.alookup k' (EngineFacts.assoc l)).
+Proof. exact EngineTop.read_own_put. Qed.
+Print Assumptions C07_read_own_put.
+
+Theorem C07_read_own_delete : forall d b l k s b' s',
+  EngineModifyFacts.bucket_wf d b -> EngineModifyFacts.bucket_view d b l ->
+  Engine.b_delete d b k s = Engine.Ok (b', s') ->
+  forall k', Engine.b_lookup d b' k' = Engine.Ok (if beq k' k then None else Spec.alookup k' (EngineFacts.assoc l)).
+Proof. exact EngineTop.read_own_delete. Qed.
+Print Assumptions C07_read_own_delete.
+
+(* before any mutation the overlay answers what the committed pages answer *)
+Theorem C07_lookup_is_reference : forall d b l k,
+  EngineModifyFacts.bucket_wf d b -> EngineModifyFacts.bucket_view d b l ->
+  Engine.b_lookup d b k = Engine.Ok (Spec.alookup k (EngineFacts.assoc l)).
+Proof. exact EngineModifyFacts.b_lookup_refines. Qed.
+Print Assumptions C07_lookup_is_reference.
